@@ -453,9 +453,6 @@ fn classes(g: &Glyph, indent_count: usize) -> Vec<&'static str> {
             c.push("F3");
         }
     }
-    if !(g.width.is_normal() || g.height.is_normal()) && (g.width != 0.0 || g.height != 0.0) {
-        c.push("advance-subnormal");
-    }
     if g.contours.iter().any(|c| c.points.is_empty()) {
         c.push("empty-contour");
     }
@@ -631,11 +628,31 @@ fn emit(out: &mut String, id: i64, g: &Glyph, valid: bool, why: &str, ch: u8, co
             (b, "Ok".to_string(), tm, verdict, field)
         }
     };
+    // the library hypotheses of the theorems, on every value of this glyph
+    let mut l1_fail = String::new();
+    for x in tables.floats.values() {
+        if x.is_finite() && x.to_string().parse::<f64>().map(|y| y.to_bits()) != Ok(x.to_bits()) {
+            l1_fail = format!("f64 {:e} does not read back from {}", x, x);
+        }
+    }
+    for x in tables.chans.values() {
+        let s3 = format!("{:.3}", x);
+        let t = trim_chan(&s3);
+        match t.parse::<f64>() {
+            Ok(y) if !s3.contains(',') && (0.0..=1.0).contains(&y) && (y - x).abs() <= 0.0005 + 1e-12 => {}
+            _ => l1_fail = format!("colour channel {:e} printed as {}", x, t),
+        }
+    }
+    for c in &tables.cps {
+        if u32::from_str_radix(&format!("{:04X}", *c as u32), 16) != Ok(*c as u32) {
+            l1_fail = format!("code point {:X}", *c as u32);
+        }
+    }
     let decl_ok = if single { bytes.starts_with(b"<?xml version='1.0' encoding='UTF-8'?>\n") } else { bytes.starts_with(b"<?xml version=\"1.0\" encoding=\"UTF-8\"?>\n") };
     let _ = std::fmt::Write::write_fmt(
         out,
         format_args!(
-            "{{\"id\":{},\"valid\":{},\"why\":{},\"opts\":[{},{},{}],\"classes\":{},\"enc\":{},\"verdict\":{},\"field\":{},\"decl_ok\":{},\"case\":{},\"reparse\":{},\"bytes\":{},\"corpus\":{}}}\n",
+            "{{\"id\":{},\"valid\":{},\"why\":{},\"opts\":[{},{},{}],\"classes\":{},\"enc\":{},\"verdict\":{},\"field\":{},\"decl_ok\":{},\"l1_fail\":{},\"case\":{},\"reparse\":{},\"bytes\":{},\"corpus\":{}}}\n",
             id,
             valid,
             json_str(why),
@@ -647,6 +664,7 @@ fn emit(out: &mut String, id: i64, g: &Glyph, valid: bool, why: &str, ch: u8, co
             json_str(&verdict),
             json_str(&field),
             decl_ok || bytes.is_empty(),
+            json_str(&l1_fail),
             json_str(&case.packed()),
             json_str(&reparse.packed()),
             json_str(&hex(&bytes)),
